@@ -169,11 +169,13 @@ class Codec:
             next_msg = len(msg)
 
         # frame ends with its CheckSum(10) field, whatever follows it in the buffer
+        frame_closed = False
         cksum_idx = msg.find(self.SOH + "10=")
         if cksum_idx != -1:
             cksum_end = msg.find(self.SOH, cksum_idx + 1)
             if cksum_end != -1:
                 next_msg = cksum_end + 1
+                frame_closed = True
 
         encoded_msg = rawmsg[valid_idx : next_msg + valid_idx]
 
@@ -184,6 +186,9 @@ class Codec:
         # at a minimum we require BeginString, BodyLength & Checksum
         if len(msg) < 3:
             assert silent, "Minimum message"
+            if frame_closed:
+                # a complete CheckSum field ends the frame: it will never grow
+                return (None, parsed_length + next_msg, None)
             return (None, parsed_length, None)
 
         tag, value = msg[0].split("=", 1)
